@@ -95,6 +95,38 @@ def extLoop (b : Basic) (hs : Bytes) : M Basic :=
 termination_by hs.length
 decreasing_by simp; omega
 
+/-- from the compression methods to the end: `hs` starts at the compression-methods length byte -/
+def parseTail (b : Basic) (hs : Bytes) : M Basic := do
+  if hs.length < 1 then throw .badLength
+  let nComp ← idx hs 0
+  if hs.length < 1 + nComp.toNat then throw .badLength
+  let hs := hs.drop (1 + nComp.toNat)
+  if hs.length < 2 then return b
+  let e0 ← idx hs 0
+  let e1 ← idx hs 1
+  let extLen := e0.toNat * 256 + e1.toNat
+  if hs.length < extLen then throw .extBadLength
+  extLoop b (hs.drop 2)
+
+/-- from the cipher suites on: `hs` starts at the two-byte cipher-suites length -/
+def parseCiphers (hsVersion : UInt16) (hs : Bytes) : M Basic := do
+  if hs.length < 2 then throw .badLength
+  let c0 ← idx hs 0
+  let c1 ← idx hs 1
+  let csl := c0.toNat * 256 + c1.toNat
+  if hs.length < csl then throw .badLength
+  let ciphers ← readU16s hs 2 (csl / 2)
+  let hs ← from_ hs ((2 + csl) % 65536)      -- `hs[2+ch.CipherSuiteLen:]`, uint16 arithmetic
+  parseTail { hsVersion := hsVersion, ciphers := ciphers } hs
+
+/-- from the session id on: `hs` starts at the session-id length byte -/
+def parseSid (hsVersion : UInt16) (hs : Bytes) : M Basic := do
+  if hs.length < 1 then throw .badLength
+  let sidLen ← idx hs 0
+  let hs := hs.drop 1
+  if hs.length < sidLen.toNat then throw .badLength
+  parseCiphers hsVersion (hs.drop sidLen.toNat)
+
 def parseBasic (payload : Bytes) : M Basic := do
   if payload.length < 6 then throw .badLength
   let ty ← idx payload 0
@@ -108,30 +140,7 @@ def parseBasic (payload : Bytes) : M Basic := do
   let hsVersion := u16be v0 v1
   let hs := hs.drop 6
   if hs.length < 32 then throw .badLength
-  let hs := hs.drop 32
-  if hs.length < 1 then throw .badLength
-  let sidLen ← idx hs 0
-  let hs := hs.drop 1
-  if hs.length < sidLen.toNat then throw .badLength
-  let hs := hs.drop sidLen.toNat
-  if hs.length < 2 then throw .badLength
-  let c0 ← idx hs 0
-  let c1 ← idx hs 1
-  let csl := c0.toNat * 256 + c1.toNat
-  if hs.length < csl then throw .badLength
-  let ciphers ← readU16s hs 2 (csl / 2)
-  let hs ← from_ hs ((2 + csl) % 65536)      -- `hs[2+ch.CipherSuiteLen:]`, uint16 arithmetic
-  if hs.length < 1 then throw .badLength
-  let nComp ← idx hs 0
-  if hs.length < 1 + nComp.toNat then throw .badLength
-  let hs := hs.drop (1 + nComp.toNat)
-  let b : Basic := { hsVersion := hsVersion, ciphers := ciphers }
-  if hs.length < 2 then return b
-  let e0 ← idx hs 0
-  let e1 ← idx hs 1
-  let extLen := e0.toNat * 256 + e1.toNat
-  if hs.length < extLen then throw .extBadLength
-  extLoop b (hs.drop 2)
+  parseSid hsVersion (hs.drop 32)
 
 def isGrease (v : UInt16) : Bool := Gen.JA3.greaseValues.contains v
 
